@@ -10,6 +10,7 @@ import Pumpkin.Spec.Basic
 import Pumpkin.Check.Oracle
 import Pumpkin.Model.SemMin
 import Pumpkin.Model.RecMin
+import Pumpkin.Model.PropagationCompile
 
 namespace Pumpkin.C02
 
@@ -104,5 +105,22 @@ example : ∀ p, ∀ a ∈ ((exCtx 500).info p).reason, a < p := by
 example : (solutions (Model.mk [[0, 1], [0, 1]]
     [Cons.linNe [⟨1, 0, 0⟩, ⟨-1, 0, 1⟩] 0, Cons.linEq [⟨1, 0, 0⟩, ⟨1, 0, 1⟩] 2])).isEmpty = true := by
   decide
+
+
+/-- **An infeasibility reported while posting** (modelled by `Pg.rootFix = some none`: some
+propagator pass, or the fixpoint after a posting, ends in a conflict or an empty domain) **is only
+reported for models without solutions.** -/
+theorem root_conflict_unsat (m : Model) (hw : ∀ c ∈ m.cons, Pg.consWf m.doms.length c)
+    (hr : Pg.rootFix m.doms m.cons = some none) : solutions m = [] :=
+  Pg.rootFix_conflict_unsat m hw hr
+
+/-- … and a conflict found by propagation after any decision refutes the current domains. -/
+theorem search_conflict_sound (n : Nat) (ps : List Pg.PropInst) (hw : ∀ p ∈ ps, p.Wf n) (d : Pg.Doms)
+    (hl : d.length = n) (hf : Pg.fixpoint ps d = none) (a : List Int) (hin : inDoms d a = true) :
+    ¬ ∀ p ∈ ps, p.cons.sat a = true :=
+  Pg.fixpoint_conflict_sound ps hw d hl hf a hin
+
+example : Pg.rootFix [[0, 1], [0, 1]] [Cons.linLe [⟨-1, 0, 0⟩, ⟨-1, 0, 1⟩] (-2), Cons.linNe [⟨1, 0, 0⟩, ⟨-1, 0, 1⟩] 0]
+    = some none := by decide
 
 end Pumpkin.C02
